@@ -48,7 +48,13 @@ def lookalike(rng, h265):
 def raw_pkt(rng, n, ch, b0, hi16=0, tail=None):
     pid = (hi16 << 16) | n
     tail = bytes(rng.randrange(256) for _ in range(rng.randint(3, 8))) if tail is None else tail
-    return [pid, 0, ch, bytes([b0]) + pid.to_bytes(4, "big") + tail]
+    pk = [pid, 0, ch, bytes([b0]) + pid.to_bytes(4, "big") + tail]
+    if ch in (VRTCP, ARTCP):
+        # an RTCP packet has no RTP header: its first bytes are V/P/RC, PT, length, SSRC ... ; the same
+        # look-alike byte there (0x85 = a receiver report with five blocks looks like an IDR header)
+        pk.append(bytes([b0, hi16 & 0xff if hi16 & 0xff else rng.choice([200, 201, 202])]) +
+                  bytes(rng.randrange(256) for _ in range(10)))
+    return pk
 
 def rawify(rng, case, p=0.7):
     """replace packets that are not on the video channel (kind 0) by look-alikes given by their bytes, on the
